@@ -10,9 +10,9 @@
 use hcommon::*;
 
 // the generators / classification of the hcore side are shared by inclusion (elvis-core + hcommon only)
-#[path = "../../../hcore/src/props/c14.rs"]
+#[path = "../../../hcore/src/props/c14b.rs"]
 #[allow(dead_code)]
-mod core_c14;
+mod codec_b;
 
 pub fn run(args: &Args) {
     match args.prop.as_str() {
@@ -26,7 +26,7 @@ pub fn run(args: &Args) {
 }
 
 mod dhcps {
-    use super::core_c14::codec_b::{classify, dec_dhcp, fail, flush_failures, ip, ipn, malformed_case, biased, Decoded, Proto, Recorder};
+    use super::codec_b::{classify, dec_dhcp, fail, flush_failures, ip, ipn, malformed_case, biased, Decoded, Proto, Recorder};
     use elvis::applications::DhcpServer;
     use elvis::ip_generator::{IpGenerator, IpRange};
     use elvis_core::{Control, Machine, Message, Protocol};
@@ -146,7 +146,7 @@ mod dhcps {
 
 /// Full-stack DNS: what the real DnsServer / DnsClient do with an arbitrary datagram.
 mod dnssim {
-    use super::core_c14::codec_b::{dl, fail, flush_failures, spec_dns, utf8_table, DnsV};
+    use super::codec_b::{dl, fail, flush_failures, spec_dns, utf8_table, DnsV};
     use elvis_core::protocol::{DemuxError, StartError};
     use elvis_core::protocols::dns::{dns_client::DnsClient, dns_server::DnsServer};
     use elvis_core::protocols::ipv4::{Ipv4, Ipv4Address, Recipient};
